@@ -1,8 +1,27 @@
 (* C06 -- builder simplifications never change what a pipeline means.
-   merge_*: about try_to_merge_ops REGENERATED from data_algebra/data_ops_utils.py (Gen/G_MergeOps.v). *)
-From Coq Require Import List Bool String.
+   "Chaining steps gives the same result as applying each step in turn to the materialized result of the previous one.  This holds
+    even though the builder merges consecutive extend steps, collapses column selections and removes intermediate order_rows steps.
+    A simplified pipeline accepts and rejects exactly the steps and options, such as join key checks, that the unsimplified sequence would."
+
+   Part 1 (the merged_extend theorems): about try_to_merge_ops REGENERATED from data_algebra/data_ops_utils.py (Gen/G_MergeOps.v) and the window test of
+   extend_parsed_ (Model/MergeGuard.v), over an abstract column function.
+   Part 2: about the builders as a whole -- Model/Simplify.v: `build_step` = the tree the real builder returns for a step on a prefix
+   (tied on every run by the tree correspondence of harness/props/C06.py), `build_unsimplified` = the same call with nothing skipped,
+   collapsed or merged, `run_steps` = materialise after every step -- in the reference semantics Model/Sem.v, for EVERY backend flavour
+   fl and every iw (the function names that imply a window, read from /repo on every run).
+   Relations: same_bag = equal column lists, rows a permutation;  tab_eqv (C07) = same column set, same rows in the same order, every
+   row the same function from column names to values;  tab_sim = tab_eqv up to a permutation of the rows ("the same table as a
+   multiset"; the column ORDER may differ because a merged extend lists a re-assigned column later);  otab_* = both undefined, or that.
+   Premises: step_insensitive = C18's premise for the one step on its actual input (an order-sensitive window function orders each
+   partition strictly, group keys have one representation per value, a limit is taken under a total order); step_valid / prefix_ok =
+   what the builder validated (C26): an extend's keys are distinct and are not its window columns, select_columns names known columns,
+   a rename does not merge two columns. *)
+From Coq Require Import List Bool ZArith String Permutation.
 Import ListNotations.
 From DA Require Import Base.PyRT Base.Val Model.Extend Model.MergeGuard Gen.G_MergeOps Proofs.MergeOpsP Proofs.MergeGuardP.
+From DA Require Import Model.Sem Model.PermGuard Model.Simplify Proofs.SemBasicP Proofs.SemOrderP Proofs.PermP2 Proofs.PermP3 Proofs.ComposeP5
+  Proofs.SimplifyP1 Proofs.SimplifyP2 Proofs.SimplifyP3 Proofs.SimplifyP4 Proofs.SimplifyP5 Proofs.SimplifyP6.
+From DA Require Model.Builder Model.BuilderSpec Proofs.SimplifyP7.
 
 (* Whenever try_to_merge_ops merges two extend steps, the merged step denotes, column for column, the same frame
    as the two steps applied one after the other -- for EVERY pair of assignment dictionaries (repeated and
@@ -63,3 +82,167 @@ Example C06_unsound_merge_refused :
   try_to_merge_ops (get_columns_used (fun e : list string => e))
     [("x"%string, ["a"%string]); ("b"%string, ["a"%string])] [("x"%string, []); ("y"%string, ["b"%string])] = None.
 Proof. vm_compute. reflexivity. Qed.
+
+(* ================================================================== Part 2: the builders, in the reference semantics *)
+
+(* ---------------------------------------------------------------- extend merging *)
+(* the merged extend node denotes the two extends applied one after the other (row-wise, and windowed over one shared window) *)
+Theorem C06_merged_extend_denotes_sequential_extends :
+  forall (fl : flavor) (o1 o2 m : list (string * expr)) (t : table),
+  NoDup (map fst o1) -> NoDup (map fst o2) -> try_to_merge_ops gcu o1 o2 = Some m -> width_ok t ->
+  tab_eqv (sem_extend fl m t) (sem_extend fl o2 (sem_extend fl o1 t)).
+Proof. intros fl o1 o2 m t N1 N2 H. exact (merge_sem_extend o1 o2 m N1 N2 H fl t). Qed.
+Print Assumptions C06_merged_extend_denotes_sequential_extends.
+
+Theorem C06_merged_windowed_extend_denotes_sequential_extends :
+  forall (fl : flavor) (w : window) (o1 o2 m : list (string * expr)) (t : table),
+  NoDup (map fst o1) -> NoDup (map fst o2) -> try_to_merge_ops gcu o1 o2 = Some m -> width_ok t ->
+  (forall k, In k (map fst o1) -> ~ In k (w_part w ++ w_order w)) ->
+  tab_eqv (sem_wextend fl m w t) (sem_wextend fl o2 w (sem_wextend fl o1 w t)).
+Proof. intros fl w o1 o2 m t N1 N2 H. exact (merge_sem_wextend o1 o2 m N1 N2 H fl w t). Qed.
+Print Assumptions C06_merged_windowed_extend_denotes_sequential_extends.
+
+(* ---------------------------------------------------------------- select / drop collapsing *)
+Theorem C06_select_collapse_sound :
+  forall (fl : flavor) (s : op) (cs1 cs2 : list string) (e : env),
+  (forall c, In c cs2 -> In c cs1) ->
+  sem_gen fl (OSelectCols (OSelectCols s cs1) cs2) e = sem_gen fl (OSelectCols s cs2) e.
+Proof. exact select_collapse_select. Qed.
+Print Assumptions C06_select_collapse_sound.
+
+Theorem C06_select_collapse_after_drop_sound :
+  forall (fl : flavor) (s : op) (ds cs2 : list string) (e : env),
+  (forall c, In c cs2 -> In c (column_names (ODropCols s ds))) ->
+  sem_gen fl (OSelectCols (ODropCols s ds) cs2) e = sem_gen fl (OSelectCols s cs2) e.
+Proof. exact select_collapse_drop. Qed.
+Print Assumptions C06_select_collapse_after_drop_sound.
+
+(* the inclusion (validated by select_columns BEFORE it collapses, since /repo 1cca521) is needed *)
+Theorem C06_select_collapse_without_inclusion_refuted :
+  exists fl s cs1 cs2 e, sem_gen fl (OSelectCols (OSelectCols s cs1) cs2) e <> sem_gen fl (OSelectCols s cs2) e.
+Proof. exact select_collapse_needs_inclusion. Qed.
+Print Assumptions C06_select_collapse_without_inclusion_refuted.
+
+(* ---------------------------------------------------------------- order_rows elimination *)
+(* the builders forward every step to the source of an order_rows without limit (unless they return the pipeline unchanged) ... *)
+Theorem C06_builders_skip_order_rows_without_limit :
+  forall (iw : list string) (s : op) (cs rev : list string) (x : step),
+  returns_self (OOrder s cs rev None) x = false -> build_step iw (OOrder s cs rev None) x = build_step iw s x.
+Proof. exact build_step_skips_order. Qed.
+Print Assumptions C06_builders_skip_order_rows_without_limit.
+
+(* ... and for EVERY kind of step x that is not sensitive to the row order of its input, x applied to s and x applied to
+   s.order_rows(cs, reverse=rev) have the same columns and the same rows as a multiset *)
+Theorem C06_order_rows_elimination_sound :
+  forall (iw : list string) (fl : flavor) (e : env) (x : step) (s : op) (cs rev : list string),
+  (forall u, sem_gen fl s e = Some u -> step_insensitive iw fl x u) ->
+  same_bag (sem_gen fl (build_unsimplified iw s x) e) (sem_gen fl (build_unsimplified iw (OOrder s cs rev None) x) e).
+Proof. exact order_elim_sound. Qed.
+Print Assumptions C06_order_rows_elimination_sound.
+
+(* the same LIST of rows when the step is itself an order_rows that is total on the data ... *)
+Theorem C06_order_rows_elimination_before_total_order_rows_identical :
+  forall (fl : flavor) (e : env) (s : op) (cs rev cs2 rev2 : list string) (lim : option nat),
+  (forall u, sem_gen fl s e = Some u -> total_on fl (cols u) (map (fun c => (c, mem c rev2)) cs2) (rows u)) ->
+  sem_gen fl (OOrder (OOrder s cs rev None) cs2 rev2 lim) e = sem_gen fl (OOrder s cs2 rev2 lim) e.
+Proof. exact order_elim_order_total. Qed.
+Print Assumptions C06_order_rows_elimination_before_total_order_rows_identical.
+
+(* ... or when the rows are compared after a total final order_rows *)
+Theorem C06_order_rows_elimination_identical_after_total_final_order :
+  forall (iw : list string) (fl : flavor) (e : env) (x : step) (s : op) (cs rev cs2 rev2 : list string) (lim : option nat),
+  (forall u, sem_gen fl s e = Some u -> step_insensitive iw fl x u) ->
+  (forall v, sem_gen fl (build_unsimplified iw s x) e = Some v -> total_on fl (cols v) (map (fun c => (c, mem c rev2)) cs2) (rows v)) ->
+  sem_gen fl (OOrder (build_unsimplified iw (OOrder s cs rev None) x) cs2 rev2 lim) e
+  = sem_gen fl (OOrder (build_unsimplified iw s x) cs2 rev2 lim) e.
+Proof. exact order_elim_then_total_order. Qed.
+Print Assumptions C06_order_rows_elimination_identical_after_total_final_order.
+
+(* without a final order the LIST of rows does depend on the dropped order_rows (a row-wise step keeps the order of its input) *)
+Theorem C06_order_rows_elimination_same_list_refuted :
+  exists iw fl e x s cs rev,
+    (forall u, sem_gen fl s e = Some u -> step_insensitive iw fl x u) /\
+    sem_gen fl (build_unsimplified iw s x) e <> sem_gen fl (build_unsimplified iw (OOrder s cs rev None) x) e.
+Proof. exact order_elim_list_needs_final_order. Qed.
+Print Assumptions C06_order_rows_elimination_same_list_refuted.
+
+(* FULL STATEMENT without the premise is FALSE, for the model and for the code (known finding C06-unordered-window-after-order_rows):
+   t.order_rows(['a']).extend({'c': 'x.first()'}) -- `first` reads the order of its partition but is accepted without an order_by; the
+   builder drops the order_rows, and the chained result differs from the step-by-step one even as a multiset *)
+Theorem C06_order_rows_elimination_unordered_window_refuted :
+  exists iw fl e x s cs rev a b,
+    build_step iw (OOrder s cs rev None) x = build_unsimplified iw s x /\
+    sem_gen fl (build_unsimplified iw s x) e = Some a /\ sem_gen fl (build_unsimplified iw (OOrder s cs rev None) x) e = Some b /\
+    ~ Permutation (rows a) (rows b).
+Proof. exact order_elim_unordered_window_refuted. Qed.
+Print Assumptions C06_order_rows_elimination_unordered_window_refuted.
+
+(* ---------------------------------------------------------------- one builder call, any prefix *)
+(* whatever the builder does with the prefix p (skip, collapse, merge, return it unchanged), the pipeline it returns denotes the
+   step applied to the MATERIALISED result of p *)
+Theorem C06_builder_step_equals_step_on_materialized_prefix :
+  forall (iw : list string) (fl : flavor) (e : env) (x : step) (p : op) (t r : table),
+  sem_gen fl p e = Some t -> tab_sim t r -> width_ok r -> prefix_ok iw p -> step_valid x (cols r) -> step_insensitive iw fl x r ->
+  otab_sim (sem_gen fl (build_step iw p x) e) (apply_sem iw fl e x r).
+Proof. exact build_step_sound. Qed.
+Print Assumptions C06_builder_step_equals_step_on_materialized_prefix.
+
+(* ---------------------------------------------------------------- chains: the property *)
+(* run_steps (materialise after every step) is the meaning of the pipeline built without any simplification *)
+Theorem C06_stepwise_run_is_the_unsimplified_pipeline :
+  forall (iw : list string) (fl : flavor) (e : env) (xs : list step) (p0 : op),
+  sem_gen fl (build_plain iw p0 xs) e = run_steps iw fl e (sem_gen fl p0 e) xs.
+Proof. exact sem_build_plain. Qed.
+Print Assumptions C06_stepwise_run_is_the_unsimplified_pipeline.
+
+(* for EVERY list of steps: the pipeline built with the simplifications denotes the same table as applying each step in turn to the
+   materialised result of the previous one (same column set, same rows as a multiset), the premises being asked step by step of the
+   tables of the step-by-step run (steps_ok).  Induction over the list, using the three simplification lemmas above. *)
+Theorem C06_chain_eq_steps :
+  forall (iw : list string) (fl : flavor) (e : env) (p0 : op) (xs : list step),
+  prefix_ok iw p0 -> steps_ok iw fl e (sem_gen fl p0 e) xs ->
+  otab_sim (sem_gen fl (build iw p0 xs) e) (run_steps iw fl e (sem_gen fl p0 e) xs).
+Proof. exact chain_eq_steps. Qed.
+Print Assumptions C06_chain_eq_steps.
+
+(* ... and the same rows IN THE SAME ORDER when the chain ends in an order_rows that is total on the data *)
+Theorem C06_chain_eq_steps_row_for_row_under_total_final_order :
+  forall (iw : list string) (fl : flavor) (e : env) (p0 : op) (xs : list step) (cs rev : list string) (lim : option nat),
+  prefix_ok iw p0 -> steps_ok iw fl e (sem_gen fl p0 e) xs -> cs <> [] ->
+  (forall r, run_steps iw fl e (sem_gen fl p0 e) xs = Some r -> total_on fl (cols r) (map (fun c => (c, mem c rev)) cs) (rows r)) ->
+  otab_eqv (sem_gen fl (build iw p0 (xs ++ [SOrder cs rev lim])) e) (run_steps iw fl e (sem_gen fl p0 e) (xs ++ [SOrder cs rev lim])).
+Proof. exact chain_eq_steps_ordered. Qed.
+Print Assumptions C06_chain_eq_steps_row_for_row_under_total_final_order.
+
+(* the builders keep the invariant the chain theorem starts from *)
+Theorem C06_builder_keeps_prefix_invariant :
+  forall (iw : list string) (x : step) (p : op), prefix_ok iw p -> step_valid x (column_names p) -> prefix_ok iw (build_step iw p x).
+Proof. exact build_step_ok. Qed.
+Print Assumptions C06_builder_keeps_prefix_invariant.
+
+(* ---------------------------------------------------------------- accept / reject (restated from C26) *)
+(* on every prefix the builder can have produced -- order_rows skipped, select_columns collapsed, extends merged by the regenerated
+   try_to_merge_ops -- a step is accepted exactly when it is accepted on the prefix's declared columns alone (what the step-by-step
+   sequence sees: a table description of the materialised result), with the same set of columns: the inductive step of "the
+   simplified chain accepts iff the unsimplified sequence does".  T = the function-name classes read from /repo. *)
+Theorem C06_chain_accepts_iff :
+  forall (T : Builder.tables) (p : Builder.prefix) (s : Builder.step), BuilderSpec.wf_prefix T p ->
+  ((exists c, Builder.apply_step T p s = Builder.Accept c) <-> (exists c, Builder.build_step T (Builder.declared p) s = Builder.Accept c))
+  /\ BuilderSpec.same_outcome (Builder.apply_step T p s) (Builder.build_step T (Builder.declared p) s).
+Proof. exact SimplifyP7.accepts_iff. Qed.
+Print Assumptions C06_chain_accepts_iff.
+
+(* ---------------------------------------------------------------- non-vacuity *)
+Local Open Scope string_scope.
+Local Open Scope list_scope.
+(* a chain of 8 steps (two order_rows, two windowed extends over one window, two select_columns, two row-wise extends the second of which
+   overwrites a column of the first) on which every hypothesis of C06_chain_eq_steps holds; the builder returns three nodes *)
+Example C06_chain_hypotheses_satisfiable :
+  prefix_ok ex_iw ex_tab /\ steps_ok ex_iw fl_sqlite ex_env (sem_gen fl_sqlite ex_tab ex_env) ex_steps.
+Proof. exact ex_steps_ok. Qed.
+Example C06_chain_example_is_simplified :
+  build ex_iw ex_tab ex_steps
+  = OExtend (OSelectCols (OExtend ex_tab [("c", EOp "cumsum" [ECol "a"]); ("r", EOp "_row_number" [])] true (mkwin ["k"] ["u"] []))
+                         ["c"; "k"; "u"])
+            [("y", ECol "k"); ("z", EConst (q 7%Z))] false (mkwin [] [] []).
+Proof. exact ex_built. Qed.
